@@ -188,6 +188,44 @@ func init() {
 			}
 			st.sample(map[string]any{"grammar": it.Text, "inputs": len(inputs), "example_fresh": fresh[len(fresh)-1].s})
 		}
+		// one parser object, sources that come with different source contexts, no user context on the parser: the
+		// context the actions see is the parser's own field (nil), whatever went before
+		if im.NewParser != nil && im.NewLexer != nil && it.G.Alts != nil {
+			c := ref.NewCFG(it.G)
+			var srcs [][]byte
+			for _, sent := range c.CoverSentences() {
+				b := ""
+				for _, t := range sent {
+					b += string(t[0])
+				}
+				if len(srcs) < 4 {
+					srcs = append(srcs, []byte(b), []byte(b+"?"))
+				}
+			}
+			run := func(p rt.Parser, src []byte, name string) string {
+				rec := &rt.Recorder{MaxActs: 200000}
+				rt.Default = rec
+				res := p.ParseSrcCtx(src, rec, name)
+				rt.Default = nil
+				s := sig(res, rec)
+				for _, ev := range rec.Log {
+					if ev.Kind == "act" {
+						s += ev.Ctx
+					}
+				}
+				return s
+			}
+			p := im.NewParser()
+			for i, src := range srcs {
+				name := fmt.Sprintf("unit%d.src", i)
+				got, want := run(p, src, name), run(im.NewParser(), src, name)
+				st.add("sources_with_context_on_one_parser", 1)
+				if got != want {
+					st.violation("C16", fmt.Sprintf("%s srcctx %d", it.ID, i), fmt.Sprintf("source %q (context %s) parsed on a parser that has parsed %d sources with other contexts gives %s; a fresh parser gives %s", src, name, i, clipStr(got, 400), clipStr(want, 400)), map[string]any{"source": string(src)})
+					break
+				}
+			}
+		}
 		if im.NewLexer != nil {
 			lr, err := ref.NewLexRef(it.G.Lex, strLits(it))
 			if err != nil {
